@@ -138,6 +138,11 @@ func globalsFacts(l *loader) []globalVar {
 				vars[v] = gv
 			}
 		}
+		type doSite struct {
+			fn   string
+			line int
+		}
+		onceDo := map[string][]doSite{} // once expression -> where its Do(...) is called
 		record := func(obj types.Object, a access) {
 			gv := vars[obj]
 			if gv == nil {
@@ -182,6 +187,8 @@ func globalsFacts(l *loader) []globalVar {
 									if t := info.TypeOf(sel.X); t != nil && strings.Contains(t.String(), "sync.Once") {
 										c2 := ctx.clone()
 										c2.once = types.ExprString(sel.X)
+										_, dl := l.pos(x.Pos())
+										onceDo[c2.once] = append(onceDo[c2.once], doSite{fname, dl})
 										walkStmts(fl.Body.List, c2)
 										walkExpr(sel.X, ctx, false, "")
 										return false
@@ -354,6 +361,19 @@ func globalsFacts(l *loader) []globalVar {
 					gv.Class, gv.Guard = "Guarded", guard
 				case onceAll && once != "":
 					gv.Class, gv.Guard = "OnceInit", once
+					// a read in the function that calls once.Do, lexically before that call, is not ordered
+					// after the initialisation (double-checked "fast path"): not safe
+					for _, a := range all {
+						if a.Write || a.Once != "" {
+							continue
+						}
+						for _, d := range onceDo[once] {
+							if d.fn == a.Func && a.Line < d.line {
+								gv.Class = "Unguarded"
+								gv.BadAcc = append(gv.BadAcc, a)
+							}
+						}
+					}
 				default:
 					gv.Class = "Unguarded"
 					for _, a := range all {
